@@ -34,6 +34,9 @@ type ReadPlan struct {
 	Chunks      []int  // sizes of successive Read results (then whatever is left in one go); 0 = a zero-length read
 	ErrAt       int    // a read error is returned once this many bytes were served (-1 = never)
 	EOFWithData bool   // final chunk returned together with io.EOF
+	// Nested: before the k-th Read call of this read (1-based; 0 = never) the store runs Store.NestedFn —
+	// another operation on the same link system overlapping with this one — with no plan of its own
+	Nested int `json:"nested_operation_before_read_call,omitempty"`
 }
 
 // WritePlan scripts faults of one open+write+commit.
@@ -52,6 +55,7 @@ type Store struct {
 	RP         *ReadPlan
 	WP         *WritePlan
 	Served     []byte // bytes actually handed to the caller by the last read
+	NestedFn   func() `json:"-"` // see ReadPlan.Nested
 }
 
 func NewStore() *Store { return &Store{M: map[string][]byte{}} }
@@ -63,9 +67,17 @@ type planReader struct {
 	p    ReadPlan
 	ci   int
 	done bool
+	calls int
 }
 
 func (r *planReader) Read(p []byte) (int, error) {
+	r.calls++
+	if r.p.Nested == r.calls && r.s.NestedFn != nil {
+		rp, served, reads := r.s.RP, r.s.Served, r.s.Reads
+		r.s.RP = nil
+		r.s.NestedFn()
+		r.s.RP, r.s.Served, r.s.Reads = rp, served, reads
+	}
 	if r.p.ErrAt >= 0 && r.off >= r.p.ErrAt {
 		return 0, ErrInjected
 	}
